@@ -274,6 +274,12 @@ def r14_4(ctx, prog):
         ctx.ok('R14.4', '%s:%s:helper' % (short(f.path), vn), 'private helper that builds %s from its own parameter; its %d call site(s) are checked instead' % (vn, len(callers)), span=sp)
         for g, cb, t in callers:
             work.append((g, cb, vn, t.get('span'), depth + 1))
+    # every remaining reporting site is attributed to a root: a dispatcher (Operator::eval / eval_mut, directly or through crate-private
+    # functions called only from it), a Context::call_function implementation, or a derived impl. The roots are then decided by
+    # interpreting them, so the arm a site sits in, or the helper it was moved to, does not matter.
+    from rules.common import terminal_call_sites
+    import tables
+    todo = {}
     seen_sites = set()
     for f, b, vn, sp in final:
         if (f.path, b, vn) in seen_sites:
@@ -283,32 +289,42 @@ def r14_4(ctx, prog):
         if f.j.get('derived'):
             ctx.ok('R14.4', inst + ':derived', 'derived %s impl copies an existing error' % short(f.j.get('impl_trait') or ''), span=sp)
             continue
-        if short(f.path) == 'operator::Operator::eval':
-            import tables
-            from mirlib import resolve_place
-            want_variant = 'VariableIdentifierRead' if vn == 'VariableIdentifierNotFound' else 'FunctionIdentifier'
-            regions, _dsp = tables.arm_regions(f, {'l': 1, 'p': ['deref']}, [v['idx'] for v in op['variants']])
-            owners = sorted(v['name'] for v in op['variants'] if b in regions[v['idx']])
-            if owners != [want_variant]:
-                ctx.violation('R14.4', inst, 'arm', '%s is built in the arm(s) of %s, expected only %s' % (vn, owners, want_variant), span=sp)
+        root = f
+        if not is_reporter(f) and short(f.path).startswith(('value::', 'error::expect_')):
+            ctx.violation('R14.4', inst, 'foreign-site', '%s constructed in %s, which the dispatcher analysis treats as opaque' % (vn, short(f.path)), span=sp)
+            continue
+        if not is_reporter(f):
+            me = short(f.path)
+            ups = sorted({a for a, _ in terminal_call_sites(prog, lambda c, me=me: c.get('local') and short(c.get('def') or '') == me, roots=set(roots))})
+            cands = [g for g in prog.fns if short(g.path) in ups]
+            if len(ups) == 1 and len(cands) == 1 and is_reporter(cands[0]):
+                root = cands[0]
+                ctx.ok('R14.4', inst + ':helper', 'reached only from %s; decided there' % ups[0], span=sp)
+            else:
+                ctx.violation('R14.4', inst, 'foreign-site', '%s constructed outside Operator::eval / eval_mut / Context::call_function (reached from %s)' % (vn, ups), span=sp)
                 continue
-            # abstractly evaluate the arm: every returned not-found error carries the node's own identifier
-            okk = True
-            found = 0
-            for v in [v for v in op['variants'] if v['name'] == want_variant]:
+        todo.setdefault((root.path, vn), (root, sp))
+    for (_rp, vn), (f, sp) in sorted(todo.items()):
+        inst = '%s:%s' % (short(f.path), vn)
+        if short(f.path) == 'operator::Operator::eval':
+            want_variant = 'VariableIdentifierRead' if vn == 'VariableIdentifierNotFound' else 'FunctionIdentifier'
+
+            def hook(it, fn, t, args):
+                c = t['callee']
+                if c.get('trait') and path_endswith(c['trait'], 'context::Context'):
+                    return ('app', 'Context::' + c['name'], tuple(args))
+                if c.get('local') and c['name'] == 'builtin_function':
+                    return ('app', 'builtin_function', tuple(args))
+                if c.get('local') and (short(c['def']).startswith('value::') or short(c['def']).startswith('error::expect_')):
+                    # accessors and type guards of Value build no not-found error: opaque, so that the arithmetic arms stay small
+                    return ('app', short(c['def']), tuple(args))
+                return None
+            okk, found = True, 0
+            for v in op['variants']:
                 fields = [SYM('%s.%s' % (v['name'], fd['name'])) for fd in v['fields']]
                 selfv = ADT(op['path'], v['idx'], v['name'], fields)
-
-                def hook(it, fn, t, args):
-                    c = t['callee']
-                    if c.get('trait') and path_endswith(c['trait'], 'context::Context'):
-                        return ('app', 'Context::' + c['name'], tuple(args))
-                    if c.get('local') and c['name'] == 'builtin_function':
-                        return ('app', 'builtin_function', tuple(args))
-                    return None
-                it = Interp(prog, hook=hook, max_depth=3)
                 try:
-                    paths = it.paths(f, [selfv, SYM('arguments'), SYM('context')])
+                    paths = Interp(prog, hook=hook, max_depth=3).paths(f, [selfv, SYM('arguments'), SYM('context')])
                 except Budget:
                     ctx.unrecognised('R14.4', inst, 'budget', 'Operator::eval arm too complex for %s' % v['name'], span=sp)
                     okk = False
@@ -323,8 +339,7 @@ def r14_4(ctx, prog):
                 ctx.check(found > 0, 'R14.4', inst, 'unreached', '%s is returned only for its own node kind, carrying that node\'s identifier' % vn, span=sp)
         elif short(f.path) == 'operator::Operator::eval_mut' and vn == 'VariableIdentifierNotFound':
             # an assignment arm reporting a missing variable: the name must be the assignment target, i.e. the string the left child
-            # (a VariableIdentifierWrite node, listed by the iterators) evaluated to
-            import tables
+            # (a VariableIdentifierWrite node, listed by the iterators) evaluated to; no other variant may report one by itself
             val = prog.adt(tables.VALUE)
             sv = [x for x in val['variants'] if x['name'] == 'String'][0]
             arguments = ('tuple', (ADT(val['path'], sv['idx'], 'String', [SYM('target')]), SYM('rhs')))
@@ -340,23 +355,21 @@ def r14_4(ctx, prog):
                 return None
             okk, cnt = True, 0
             for v in op['variants']:
-                if v['name'] not in tables.ASSIGN or v['name'] == 'Assign':
-                    continue
+                is_opassign = v['name'] in tables.ASSIGN and v['name'] != 'Assign'
+                selfv = ADT(op['path'], v['idx'], v['name'], [SYM('%s.%s' % (v['name'], fd['name'])) for fd in v['fields']])
                 try:
-                    paths = Interp(prog, hook=hook2, max_depth=3).paths(f, [ADT(op['path'], v['idx'], v['name'], []), arguments, SYM('context')])
+                    paths = Interp(prog, hook=hook2, max_depth=3).paths(f, [selfv, arguments, SYM('context')])
                 except Budget:
                     okk = False
                     break
                 for ret, _ in paths:
                     for e in find_adts(ret, vn):
                         cnt += 1
-                        okk = okk and e[4] == (SYM('target'),)
+                        okk = okk and is_opassign and e[4] == (SYM('target'),)
             ctx.check(okk and cnt > 0, 'R14.4', inst, 'payload', 'an assignment arm reports a missing variable only under the name of its assignment target (the left child\'s identifier)', span=sp)
         elif f.name == 'call_function' and path_endswith(f.j.get('impl_trait') or '', 'context::Context') and vn == 'FunctionIdentifierNotFound':
-            it = Interp(prog)
-            paths = it.paths(f, [SYM('self'), SYM('identifier'), SYM('argument')])
-            okk = True
-            cnt = 0
+            paths = Interp(prog).paths(f, [SYM('self'), SYM('identifier'), SYM('argument')])
+            okk, cnt = True, 0
             for ret, _ in paths:
                 for e in find_adts(ret, vn):
                     cnt += 1
@@ -364,7 +377,7 @@ def r14_4(ctx, prog):
                         okk = False
             ctx.check(okk and cnt > 0, 'R14.4', inst + ':' + short(f.j.get('impl_self_ty') or ''), 'payload', 'call_function reports exactly the identifier it was asked for', span=sp)
         else:
-            ctx.violation('R14.4', inst, 'foreign-site', '%s constructed outside Operator::eval / Context::call_function' % vn, span=sp)
+            ctx.violation('R14.4', inst, 'foreign-site', '%s constructed outside Operator::eval / eval_mut / Context::call_function' % vn, span=sp)
 
 
 def find_adts(v, vname):
